@@ -287,7 +287,7 @@ def bgpRec {P B : Type} (ms : P → B → List B) : List P → B → List B × N
 inductive Fn where
   | gspoNext | bcdNext | cdNext | spoNext | bcNext
   | quotedString | graphRec | cmpBindingsWith | bgpRec | populateList | markListNode | jsonify
-  | findSubject | prettyWriteTerm | nq | termCmp
+  | findSubject | prettyWriteTerm | dedupNext | nq | termCmp
   | ntWriteTermCycle | selectCycle | populateConvertCycle | prettyWriteCycle | termEq | termHash
   deriving Repr, DecidableEq, Inhabited
 
@@ -306,6 +306,7 @@ def Fn.ofName : String → Option Fn
   | "engine::jsonify" => some .jsonify
   | "pretty::find_subject" => some .findSubject
   | "pretty::write_term" => some .prettyWriteTerm
+  | "pretty::dedup_next" => some .dedupNext
   | "cnq::nq" => some .nq
   | "term::cmp" => some .termCmp
   | "nt::write_term~write_triple" => some .ntWriteTermCycle
@@ -386,12 +387,16 @@ def harnessFns : String → Option (List Fn)
   | "iter_bc_first" | "iter_bc_last" => some [.bcNext]
   | "nt_literal" => some [.quotedString, .ntWriteTermCycle]
   | "c14n_literal" => some [.nq, .termCmp, .termEq, .termHash]
-  | "sparql_graph" => some [.graphRec, .selectCycle, .bgpRec]
+  -- `graph` first evaluates the inner pattern with the empty graph matcher `&[]` (for the variables):
+  -- that scan goes through GspoMatchingIterator and skips every quad of every named graph
+  | "sparql_graph" => some [.graphRec, .gspoNext, .selectCycle, .bgpRec]
   -- the iterator behind a BGP skips nothing here (its matchers accept every row)
   | "sparql_bgp" => some [.bgpRec, .selectCycle]
   | "jsonld_list" => some [.markListNode, .populateList, .populateConvertCycle, .jsonify]
   | "turtle_list" => some [.prettyWriteCycle, .prettyWriteTerm, .findSubject]
   | "turtle_subjects" => some [.findSubject, .prettyWriteCycle, .prettyWriteTerm]
+  -- one subject with `size` objects: `size - 1` consecutive duplicates of (graph, subject)
+  | "turtle_objects" => some [.dedupNext, .prettyWriteCycle, .prettyWriteTerm, .findSubject]
   -- rio parsers + `insert`: no anchored function scales with the number of statements
   | "parse_nt" => some []
   | "parse_turtle" => some []
